@@ -54,6 +54,7 @@ Definition tables : tables := [
       (m_str, mkM KDebugStr 17)]);
   ((Named BS), mkC (Some (Named BU)) false [
       (m_iter, mkM KFail 3);
+      (m_aiter, mkM KFail 3);
       (m_str, mkM KFail 3);
       (m_len, mkM KFail 3);
       (m_eq, mkM KFail 3);
@@ -65,22 +66,26 @@ Definition tables : tables := [
       (m_fail, mkM KFailLogged 18);
       (m_str, mkM (KLogSuper m_str) 19);
       (m_iter, mkM (KLogSuper m_iter) 20);
-      (m_bool, mkM (KLogSuper m_bool) 21)]);
+      (m_aiter, mkM (KLogSuper m_aiter) 21);
+      (m_bool, mkM (KLogSuper m_bool) 22)]);
   ((Logging BC), mkC (Some (Named BC)) true [
-      (m_fail, mkM KFailLogged 22);
-      (m_str, mkM (KLogSuper m_str) 23);
-      (m_iter, mkM (KLogSuper m_iter) 24);
-      (m_bool, mkM (KLogSuper m_bool) 25)]);
+      (m_fail, mkM KFailLogged 23);
+      (m_str, mkM (KLogSuper m_str) 24);
+      (m_iter, mkM (KLogSuper m_iter) 25);
+      (m_aiter, mkM (KLogSuper m_aiter) 26);
+      (m_bool, mkM (KLogSuper m_bool) 27)]);
   ((Logging BD), mkC (Some (Named BD)) true [
-      (m_fail, mkM KFailLogged 26);
-      (m_str, mkM (KLogSuper m_str) 27);
-      (m_iter, mkM (KLogSuper m_iter) 28);
-      (m_bool, mkM (KLogSuper m_bool) 29)]);
+      (m_fail, mkM KFailLogged 28);
+      (m_str, mkM (KLogSuper m_str) 29);
+      (m_iter, mkM (KLogSuper m_iter) 30);
+      (m_aiter, mkM (KLogSuper m_aiter) 31);
+      (m_bool, mkM (KLogSuper m_bool) 32)]);
   ((Logging BS), mkC (Some (Named BS)) true [
-      (m_fail, mkM KFailLogged 30);
-      (m_str, mkM (KLogSuper m_str) 31);
-      (m_iter, mkM (KLogSuper m_iter) 32);
-      (m_bool, mkM (KLogSuper m_bool) 33)])
+      (m_fail, mkM KFailLogged 33);
+      (m_str, mkM (KLogSuper m_str) 34);
+      (m_iter, mkM (KLogSuper m_iter) 35);
+      (m_aiter, mkM (KLogSuper m_aiter) 36);
+      (m_bool, mkM (KLogSuper m_bool) 37)])
 ].
 Definition facts : facts := mkF TNotIsUndefined TIsUndefined DUndefinedOrFalsy.
 Example name_ids_agree : m_other = 0 /\ m_str = 1 /\ m_repr = 2 /\ m_bool = 3 /\ m_len = 4 /\ m_iter = 5 /\ m_contains = 6 /\ m_eq = 7 /\ m_ne = 8 /\ m_hash = 9 /\ m_lt = 10 /\ m_le = 11 /\ m_gt = 12 /\ m_ge = 13 /\ m_add = 14 /\ m_radd = 15 /\ m_sub = 16 /\ m_rsub = 17 /\ m_mul = 18 /\ m_rmul = 19 /\ m_truediv = 20 /\ m_rtruediv = 21 /\ m_floordiv = 22 /\ m_rfloordiv = 23 /\ m_mod = 24 /\ m_rmod = 25 /\ m_pow = 26 /\ m_rpow = 27 /\ m_pos = 28 /\ m_neg = 29 /\ m_int = 30 /\ m_float = 31 /\ m_index = 32 /\ m_call = 33 /\ m_getitem = 34 /\ m_getattr = 35 /\ m_fail = 36 /\ m_message = 37 /\ m_init = 38 /\ m_html = 39 /\ m_aiter = 40 /\ m_copy = 41 /\ m_deepcopy = 42 /\ m_reduce_ex = 43 /\ m_reduce = 44 /\ m_getstate = 45 /\ m_setstate = 46 /\ m_getnewargs_ex = 47 /\ m_getnewargs = 48 /\ m_trunc = 49.
